@@ -5,26 +5,69 @@
 //!   utxo / fulltx   the coin operation, with the shielded projection (`post`) and the coin projection (`coins`)
 //!   coinchk         the coin projection after a shielded operation (whose own event carries `post`)
 //!
+//! C08 (coins as proposal inputs): the same histories with shielding proposals (propose_shielding under different
+//! confirmation policies incl. zero-conf shielding, source addresses, thresholds, lock requests, selector lock policies),
+//! create_proposed_transactions on kept proposals (real transparent signatures, mock Sapling provers), the environment
+//! mining the shielding transaction (learnt from a scanned block, a full-transaction delivery or a status update) or
+//! letting it expire, and direct lock / unlock / clear operations on coins:
+//!   pshield / cshield / clock / cunlock / cclear
+//!
 //! usage: c01t_driver <out.ndjson> <histories> <ops-per-history> [ironwood]     seeded random histories
 //!        c01t_driver <out.ndjson> scenarios                                     the scenario library
+//!        c01t_driver <out.ndjson> shield <histories> <ops-per-history> [ironwood]   histories with shielding (C08)
+//!        c01t_driver <out.ndjson> shield-scenarios                              the shielding scenario library (C08)
 //!        c01t_driver <out.ndjson> conflict-scenario                             probe of a suspected defect (not registered)
+use std::convert::Infallible;
+
 use h_wallet::chain::{Pool, TxReq};
-use h_wallet::coins::{CoinWorld, class};
+use h_wallet::coins::{CoinWorld, SHARED_BASE, class};
 use h_wallet::run::Run;
-use h_wallet::util::{NdjsonWriter, quiet_panics, seed_from_env};
+use h_wallet::util::{NdjsonWriter, guarded, quiet_panics, seed_from_env};
 use rand::{Rng, seq::SliceRandom};
-use serde_json::json;
+use serde_json::{Value, json};
+use zcash_client_backend::{
+    data_api::{
+        CoinbaseFilter, WalletRead,
+        locking::{LockOwner, LockRequest, LockedInputPolicy, OutputLockStore, unlock_proposal_inputs},
+        testing::single_output_change_strategy,
+        wallet::{
+            ConfirmationsPolicy, SpendingKeys, create_proposed_transactions, propose_shielding, propose_transfer,
+            input_selection::{GreedyInputSelector, NonEmptyBTreeSet, SpendPolicy, TransparentSpendPolicy},
+        },
+    },
+    fees::StandardFeeRule,
+    proposal::Proposal,
+    wallet::OvkPolicy,
+};
+use zcash_primitives::transaction::TxId;
+use zcash_protocol::{ShieldedPool, consensus::BlockHeight, value::Zatoshis};
+
+type ShProp = Proposal<StandardFeeRule, Infallible>;
+
+fn owner(i: usize) -> LockOwner {
+    LockOwner::from(TxId::from_bytes([(i + 1) as u8; 32]))
+}
+
+/// a shielding proposal the driver kept: the proposal, who locked its inputs (if anybody), the account it shields to
+struct Kept {
+    p: ShProp,
+    locker: Option<usize>,
+    to: u32,
+}
 
 struct T<'a> {
     r: Run<'a>,
     cw: CoinWorld,
+    kept: Vec<Kept>,
+    /// total input value of the last successful shielding proposal (thresholds are tried around it)
+    last_sum: u64,
 }
 
 impl<'a> T<'a> {
     fn new(out: &'a mut NdjsonWriter, seed: u64, ironwood: bool, label: serde_json::Value) -> Self {
-        let r = Run::new(out, seed, ironwood, label);
-        let cw = CoinWorld::new(&r.w);
-        let mut t = T { r, cw };
+        let mut r = Run::new(out, seed, ironwood, label);
+        let cw = CoinWorld::new(&mut r.w);
+        let mut t = T { r, cw, kept: vec![], last_sum: 0 };
         t.chk();
         t
     }
@@ -45,7 +88,7 @@ impl<'a> T<'a> {
         let coin = self.cw.coins[&c].clone();
         let post = self.r.post();
         let coins = self.cw.project(&self.r.w);
-        self.r.out.emit(&json!({"a": "utxo", "c": c, "t": coin.tx, "v": coin.value, "acct": coin.acct, "h": self.rel(h),
+        self.r.out.emit(&json!({"a": "utxo", "c": c, "t": coin.tx, "v": coin.value, "acct": coin.acct, "ad": coin.ad, "h": self.rel(h),
                                 "res": cl, "err": e, "post": post, "coins": coins}));
         self.r.aborted |= cl == "panic";
         cl == "ok"
@@ -58,7 +101,7 @@ impl<'a> T<'a> {
         let post = self.r.post();
         let coins = self.cw.project(&self.r.w);
         let ins: Vec<u32> = tx.ins.iter().copied().filter(|c| *c != 0).collect();
-        let outs: Vec<serde_json::Value> = tx.outs.iter().map(|(c, v, a)| json!([c, v, a])).collect();
+        let outs: Vec<serde_json::Value> = tx.outs.iter().map(|(c, v, a, ad)| json!([c, v, a, ad])).collect();
         let exp = if tx.expiry == 0 { 0 } else { self.r.w.rel(tx.expiry) };
         self.r.out.emit(&json!({"a": "fulltx", "t": t, "ins": ins, "nforeign": tx.ins.iter().filter(|c| **c == 0).count(), "outs": outs,
                                 "h": self.rel(h), "e": exp, "res": cl, "err": e, "post": post, "coins": coins}));
@@ -390,14 +433,14 @@ fn new_spender(t: &mut T, wk: &mut Walk) {
         0..=1 => {}                                             // pays nobody in the wallet
         2..=6 => {                                              // change to one account
             let v = (left / 2).max(1).min(coin_value(t).max(1)).min(left);
-            outs.push((t.r.rng.gen_range(1..=2u32), v));
+            outs.push((*[1u32, 1, 2, 2, 3].choose(&mut t.r.rng).unwrap(), v));
             left -= v;
         }
         _ => {                                                  // two wallet outputs
             for _ in 0..2 {
                 let v = (left / 3).max(1).min(left);
                 if v > 0 && left > 0 {
-                    outs.push((t.r.rng.gen_range(1..=2u32), v));
+                    outs.push((*[1u32, 1, 2, 2, 3].choose(&mut t.r.rng).unwrap(), v));
                     left -= v;
                 }
             }
@@ -412,7 +455,7 @@ fn new_spender(t: &mut T, wk: &mut Walk) {
     let tip = t.wtip();
     let expiry = match t.r.rng.gen_range(0..10) { 0..=2 => 0, 3..=6 => tip + t.r.rng.gen_range(1..6), 7..=8 => tip + 40, _ => tip + t.r.rng.gen_range(6..45) };
     let uid = t.cw.new_tx(&mut t.r.rng, &ins, foreign_ins, &outs, expiry);
-    for (c, _, _) in t.cw.txs[&uid].outs.clone() {
+    for (c, _, _, _) in t.cw.txs[&uid].outs.clone() {
         wk.undelivered.push(c);
     }
     if t.r.rng.gen_bool(0.75) {
@@ -431,9 +474,9 @@ fn coin_op(t: &mut T, wk: &mut Walk) {
     match t.r.rng.gen_range(0..100) {
         // a new coin of a transaction the wallet only hears of through reports
         0..=21 => {
-            let acct = if t.r.rng.gen_bool(0.35) { 2 } else { 1 };
+            let ad = *[1u32, 1, 1, 2, 2, 3].choose(&mut t.r.rng).unwrap();
             let v = coin_value(t);
-            let c = t.cw.new_utxo(&mut t.r.rng, acct, v);
+            let c = t.cw.new_utxo_at(&mut t.r.rng, ad, v);
             if t.r.rng.gen_bool(0.75) {
                 let h = if t.r.rng.gen_bool(0.1) { None } else { Some(some_height(t)) };
                 t.utxo(c, h);
@@ -462,7 +505,8 @@ fn coin_op(t: &mut T, wk: &mut Walk) {
         }
         // something the wallet has heard of already: again, or now mined, or re-mined after a rewind
         67..=84 => {
-            let stored: Vec<u32> = t.cw.txs.iter().filter(|(u, x)| x.tx.is_some() && !wk.unstored.contains(u)).map(|(u, _)| *u).collect();
+            // (transactions the wallet created itself are on the harness chain or nowhere: they are delivered truthfully, see shield_op)
+            let stored: Vec<u32> = t.cw.txs.iter().filter(|(u, x)| **u < SHARED_BASE && x.tx.is_some() && !wk.unstored.contains(u)).map(|(u, _)| *u).collect();
             if !stored.is_empty() && t.r.rng.gen_bool(0.55) {
                 let uid = *stored.choose(&mut t.r.rng).unwrap();
                 let want = if t.r.rng.gen_bool(0.7) { Some(some_height(t)) } else { None };
@@ -480,7 +524,7 @@ fn coin_op(t: &mut T, wk: &mut Walk) {
         }
         // the server answers a status request: a transaction the wallet has on record (or not) was mined
         85..=89 => {
-            let uids: Vec<u32> = t.cw.txs.keys().copied().collect();
+            let uids: Vec<u32> = t.cw.txs.keys().copied().filter(|u| *u < SHARED_BASE).collect();
             if let Some(uid) = uids.choose(&mut t.r.rng).copied() {
                 let want = Some(some_height(t));
                 if let Some(h) = height_for(t, uid, want) {
@@ -569,6 +613,612 @@ fn random_history(t: &mut T, ops: usize) {
     }
 }
 
+
+// -------------------------------------------------------------------------------------------
+// C08: coins as proposal inputs
+
+const NO_PROPOSAL: &str = r#"{"target": -1, "inputs": [], "notes": 0, "pay": 0, "change": [], "fee": 0, "anchor": -1}"#;
+
+impl<'a> T<'a> {
+    fn describe(&self, p: &ShProp) -> Value {
+        let s = p.steps().first();
+        let inputs: Vec<Value> = s
+            .transparent_inputs()
+            .iter()
+            .map(|u| {
+                let a: [u8; 32] = *u.outpoint().hash();
+                let c = self.cw.by_outpoint.get(&(a, u.outpoint().n())).map(|c| *c as i64).unwrap_or(-1);
+                json!([c, u64::from(u.value())])
+            })
+            .collect();
+        let pay: u64 = s.transaction_request().payments().values().map(|p| p.amount().map(u64::from).unwrap_or(0)).sum();
+        json!({
+            "target": self.r.w.rel(u32::from(BlockHeight::from(p.min_target_height()))),
+            "inputs": inputs,
+            "notes": s.shielded_inputs().map(|si| si.notes().len()).unwrap_or(0) + s.prior_step_inputs().len() + (p.steps().len() - 1),
+            "pay": pay,
+            "change": s.balance().proposed_change().iter().map(|c| u64::from(c.value())).collect::<Vec<_>>(),
+            "fee": u64::from(s.balance().fee_required()),
+            "anchor": s.anchor_height().map(|h| self.r.w.rel(u32::from(h))).unwrap_or(-1),
+        })
+    }
+
+    /// propose_shielding from the addresses `ads` to account `to`
+    #[allow(clippy::too_many_arguments)]
+    fn pshield(&mut self, ads: &[u32], to: u32, policy: (u32, u32, bool), threshold: u64, lock: Option<(usize, u32)>, lpol: u32, keep: bool) -> bool {
+        let (trusted, untrusted, zc) = policy;
+        let sel_policy = match lpol {
+            1 => LockedInputPolicy::PreferUnlocked(NonEmptyBTreeSet::singleton(owner(0))),
+            2 => LockedInputPolicy::PreferLocked(NonEmptyBTreeSet::singleton(owner(0))),
+            _ => LockedInputPolicy::Exclude,
+        };
+        let admitted: Vec<i64> = if lpol >= 1 { vec![0] } else { vec![] };
+        let from: Vec<_> = ads.iter().map(|a| self.cw.addrs[(*a - 1) as usize]).collect();
+        let acct = self.r.w.acct_ids[(to - 1) as usize];
+        let net = self.r.w.net;
+        let filter = if self.r.rng.gen_bool(0.5) { CoinbaseFilter::AllTransparentOutputs } else { CoinbaseFilter::NonCoinbaseOnly };
+        let st = &mut self.r.w.st;
+        let res: Result<Result<ShProp, String>, String> = guarded(move || {
+            let selector = GreedyInputSelector::new().with_locked_input_policy(sel_policy);
+            let change = single_output_change_strategy(StandardFeeRule::Zip317, None, ShieldedPool::Sapling);
+            propose_shielding::<_, _, _, _, Infallible>(
+                st.wallet_mut(),
+                &net,
+                &selector,
+                &change,
+                Zatoshis::from_u64(threshold).unwrap(),
+                &from,
+                acct,
+                ConfirmationsPolicy::new_unchecked(trusted, untrusted, zc),
+                filter,
+                lock.map(|(o, k)| LockRequest::new(owner(o), k)),
+            )
+            .map_err(|e| format!("{e:?}"))
+        });
+        let (c, e) = class(&res);
+        let cl = if c == "err" {
+            if e.contains("InsufficientFunds") { "insufficient" } else if e.contains("InputsLocked") || e.contains("LockFailure") { "inputs-locked" } else if e.contains("ScanRequired") || e.contains("SyncRequired") { "scan-required" } else { "other" }
+        } else {
+            c
+        };
+        let prop = match &res { Ok(Ok(p)) => self.describe(p), _ => serde_json::from_str(NO_PROPOSAL).unwrap() };
+        let post = self.r.post();
+        let coins = self.cw.project(&self.r.w);
+        self.r.out.emit(&json!({
+            "a": "pshield", "res": cl, "err": e, "addrs": ads, "to": to, "trusted": trusted, "untrusted": untrusted, "zc": zc,
+            "threshold": threshold, "lock": lock.map(|(o, k)| json!([o as i64, k])).unwrap_or(json!([-1, 0])), "admitted": admitted,
+            "prefer_locked": lpol == 2, "p": prop, "post": post, "coins": coins,
+        }));
+        self.r.aborted |= c == "panic";
+        if let Ok(Ok(p)) = res {
+            self.last_sum = prop_sum(&p);
+            if keep {
+                self.kept.push(Kept { p, locker: lock.map(|(o, _)| o), to });
+                if self.kept.len() > 4 {
+                    self.kept.remove(0);
+                }
+            }
+            true
+        } else {
+            false
+        }
+    }
+
+    /// propose_transfer of `amount` to a foreign shielded address, funded from the transparent coins of account `acct`
+    /// only: any of its addresses (`ads` = None) or the listed ones
+    fn ptrans(&mut self, acct: u32, ads: Option<&[u32]>, policy: (u32, u32, bool), amount: u64, lock: Option<(usize, u32)>, lpol: u32) -> bool {
+        let (trusted, untrusted, zc) = policy;
+        let sel_policy = match lpol {
+            1 => LockedInputPolicy::PreferUnlocked(NonEmptyBTreeSet::singleton(owner(0))),
+            2 => LockedInputPolicy::PreferLocked(NonEmptyBTreeSet::singleton(owner(0))),
+            _ => LockedInputPolicy::Exclude,
+        };
+        let admitted: Vec<i64> = if lpol >= 1 { vec![0] } else { vec![] };
+        let tsp = match ads {
+            None => TransparentSpendPolicy::any_account_addr(),
+            Some(l) => TransparentSpendPolicy::from_addresses(nonempty::NonEmpty::from_vec(l.iter().map(|a| self.cw.addrs[(*a - 1) as usize]).collect()).expect("non-empty list")),
+        };
+        let id = self.r.w.acct_ids[(acct - 1) as usize];
+        let net = self.r.w.net;
+        let to = zcash_keys::address::Address::Sapling(self.r.chain.foreign.sapling.default_address().1);
+        let req = zip321::TransactionRequest::new(vec![zip321::Payment::without_memo(to.to_zcash_address(&net), Zatoshis::from_u64(amount).unwrap())]).unwrap();
+        let st = &mut self.r.w.st;
+        let res = guarded(move || {
+            let selector = GreedyInputSelector::new();
+            let change = single_output_change_strategy(StandardFeeRule::Zip317, None, ShieldedPool::Sapling);
+            propose_transfer::<_, _, _, _, Infallible>(
+                st.wallet_mut(),
+                &net,
+                id,
+                &selector,
+                &change,
+                req,
+                ConfirmationsPolicy::new_unchecked(trusted, untrusted, zc),
+                &SpendPolicy::shielded_pools(std::iter::empty::<ShieldedPool>()).with_transparent(tsp).with_locked_input_policy(sel_policy),
+                lock.map(|(o, k)| LockRequest::new(owner(o), k)),
+                None,
+            )
+            .map_err(|e| format!("{e:?}"))
+        });
+        let (c, e) = class(&res);
+        let cl = if c == "err" {
+            if e.contains("InsufficientFunds") { "insufficient" } else if e.contains("InputsLocked") || e.contains("LockFailure") { "inputs-locked" } else if e.contains("ScanRequired") || e.contains("SyncRequired") { "scan-required" } else { "other" }
+        } else {
+            c
+        };
+        let prop: Value = match &res {
+            Ok(Ok(p)) => {
+                let s = p.steps().first();
+                let inputs: Vec<Value> = s
+                    .transparent_inputs()
+                    .iter()
+                    .map(|u| {
+                        let a: [u8; 32] = *u.outpoint().hash();
+                        json!([self.cw.by_outpoint.get(&(a, u.outpoint().n())).map(|c| *c as i64).unwrap_or(-1), u64::from(u.value())])
+                    })
+                    .collect();
+                let pay: u64 = s.transaction_request().payments().values().map(|p| p.amount().map(u64::from).unwrap_or(0)).sum();
+                json!({
+                    "target": self.r.w.rel(u32::from(BlockHeight::from(p.min_target_height()))),
+                    "inputs": inputs,
+                    "notes": s.shielded_inputs().map(|si| si.notes().len()).unwrap_or(0) + s.prior_step_inputs().len() + (p.steps().len() - 1),
+                    "pay": pay,
+                    "change": s.balance().proposed_change().iter().map(|c| u64::from(c.value())).collect::<Vec<_>>(),
+                    "fee": u64::from(s.balance().fee_required()),
+                    "anchor": s.anchor_height().map(|h| self.r.w.rel(u32::from(h))).unwrap_or(-1),
+                })
+            }
+            _ => serde_json::from_str(NO_PROPOSAL).unwrap(),
+        };
+        let post = self.r.post();
+        let coins = self.cw.project(&self.r.w);
+        self.r.out.emit(&json!({
+            "a": "ptrans", "res": cl, "err": e, "acct": acct, "listed": ads.is_some(), "addrs": ads.unwrap_or(&[]), "trusted": trusted, "untrusted": untrusted,
+            "zc": zc, "amount": amount, "lock": lock.map(|(o, k)| json!([o as i64, k])).unwrap_or(json!([-1, 0])), "admitted": admitted,
+            "p": prop, "post": post, "coins": coins,
+        }));
+        self.r.aborted |= c == "panic";
+        cl == "ok"
+    }
+
+    /// create_proposed_transactions on kept proposal `i` (possibly stale by now), signed with the key of account 1;
+    /// expiry: None = the builder's default, Some(0) = never, Some(h) absolute
+    fn cshield(&mut self, i: usize, expiry: Option<u32>) -> Option<u32> {
+        let k = self.kept.remove(i);
+        let desc = self.describe(&k.p);
+        let target_abs = u32::from(BlockHeight::from(k.p.min_target_height()));
+        let anchor_abs = k.p.steps().first().anchor_height().map(u32::from).unwrap_or(self.r.chain.base);
+        let expreq: i64 = match expiry { None => -1, Some(0) => -100, Some(h) => self.r.w.rel(h) };
+        let usk = self.r.w.st.test_account().unwrap().usk().clone();
+        let net = self.r.w.net;
+        let p = k.p;
+        let st = &mut self.r.w.st;
+        let res: Result<Result<Vec<TxId>, String>, String> = guarded(|| {
+            create_proposed_transactions::<_, _, Infallible, _, Infallible, _>(
+                st.wallet_mut(),
+                &net,
+                &sapling::prover::mock::MockSpendProver,
+                &sapling::prover::mock::MockOutputProver,
+                &SpendingKeys::from_unified_spending_key(usk),
+                OvkPolicy::Sender,
+                &p,
+                expiry.map(BlockHeight::from),
+            )
+            .map(|ids| ids.into_iter().collect())
+            .map_err(|e| format!("{e:?}"))
+        });
+        let (c, e) = class(&res);
+        let coin_ids: Vec<u32> = desc["inputs"].as_array().unwrap().iter().map(|i| i[0].as_i64().unwrap().max(0) as u32).collect();
+        let mut txs = vec![];
+        let mut ct = None;
+        if let Ok(Ok(ids)) = &res {
+            for id in ids {
+                let tx = self.r.w.st.wallet().get_transaction(*id).unwrap().expect("harness: created transaction not retrievable");
+                let cr = self.r.chain.register_created(&tx, &[], anchor_abs);
+                ct = Some(self.cw.register_shared(&tx, cr.abs.uid, &coin_ids));
+                txs.push(json!({
+                    "t": cr.abs.uid,
+                    "exp": if cr.expiry == 0 { -100 } else { self.r.w.rel(cr.expiry) },
+                    "outs": cr.abs.outs.iter().map(|o| json!({"n": o.note, "pool": o.pool.code(), "v": o.value, "acct": o.acct, "int": o.internal})).collect::<Vec<_>>(),
+                    "spends": cr.abs.spends,
+                    "tin": tx.transparent_bundle().map(|b| b.vin.len()).unwrap_or(0),
+                    "tout": tx.transparent_bundle().map(|b| b.vout.len()).unwrap_or(0),
+                }));
+                self.r.created.push(cr);
+            }
+        }
+        let post = self.r.post();
+        let coins = self.cw.project(&self.r.w);
+        self.r.out.emit(&json!({
+            "a": "cshield", "res": c, "err": e, "to": 1, "proposal_to": k.to, "target": desc["target"], "expreq": expreq, "fee": desc["fee"],
+            "inputs": desc["inputs"], "txs": txs, "post": post, "coins": coins,
+        }));
+        self.r.aborted |= c == "panic";
+        let _ = target_abs;
+        ct
+    }
+
+    fn clock(&mut self, cs: &[u32], o: usize, exp: u32) {
+        let refs: Vec<_> = cs.iter().map(|c| self.cw.out_ref(*c)).collect();
+        let st = &mut self.r.w.st;
+        let res = guarded(move || st.wallet_mut().lock_outputs(&refs, owner(o), BlockHeight::from(exp)).map_err(|e| format!("{e:?}")));
+        let (c, e) = class(&res);
+        let cl = if c == "err" && e.contains("LockFailure") { "lock-failure" } else { c };
+        let post = self.r.post();
+        let coins = self.cw.project(&self.r.w);
+        self.r.out.emit(&json!({"a": "clock", "res": cl, "err": e, "owner": o as i64, "exp": self.r.w.rel(exp), "cs": cs, "post": post, "coins": coins}));
+        self.r.aborted |= c == "panic";
+    }
+
+    /// unlock_proposal_inputs of kept proposal `i` under owner `by`
+    fn cunlock(&mut self, i: usize, by: usize) {
+        let k = self.kept.remove(i);
+        let cs: Vec<i64> = self.describe(&k.p)["inputs"].as_array().unwrap().iter().map(|i| i[0].as_i64().unwrap()).collect();
+        let p = k.p;
+        let st = &mut self.r.w.st;
+        let res = guarded(move || unlock_proposal_inputs(st.wallet_mut(), &p, owner(by)).map_err(|e| format!("{e:?}")));
+        let (c, e) = class(&res);
+        let post = self.r.post();
+        let coins = self.cw.project(&self.r.w);
+        self.r.out.emit(&json!({"a": "cunlock", "res": c, "err": e, "owner": by as i64, "cs": cs, "post": post, "coins": coins}));
+        self.r.aborted |= c == "panic";
+    }
+
+    fn cclear(&mut self, acct: u32) {
+        let id = self.r.w.acct_ids[(acct - 1) as usize];
+        let st = &mut self.r.w.st;
+        let res = guarded(move || st.wallet_mut().clear_locked_outputs(id).map_err(|e| format!("{e:?}")));
+        let (c, e) = class(&res);
+        let n = match &res { Ok(Ok(n)) => *n as i64, _ => -1 };
+        let post = self.r.post();
+        let coins = self.cw.project(&self.r.w);
+        self.r.out.emit(&json!({"a": "cclear", "res": c, "err": e, "acct": acct, "count": n, "post": post, "coins": coins}));
+        self.r.aborted |= c == "panic";
+    }
+
+    /// the height at which the current harness chain has the shared transaction `ct`
+    fn on_chain(&self, ct: u32) -> Option<u32> {
+        let uid = ct - SHARED_BASE;
+        self.r.chain.blocks.iter().find(|(_, b)| b.txs.iter().any(|t| t.uid == uid)).map(|(h, _)| *h)
+    }
+
+    /// the next block mines a shielding transaction the wallet created (if one can be mined); returns its coin-world id
+    fn mine_created(&mut self) -> Option<u32> {
+        let c = self.r.pick_created()?;
+        self.r.block(&[], &[(c.abs.clone(), c.ctx.clone())], true);
+        self.chk();
+        Some(SHARED_BASE + c.abs.uid)
+    }
+
+    /// tip to the top and everything scanned (proposals need an anchor)
+    fn catch_up(&mut self) {
+        let top = self.r.chain.top();
+        if top == self.r.chain.base {
+            return;
+        }
+        self.tip(top);
+        loop {
+            let scanned = self.r.scanned();
+            let Some(from) = (self.r.chain.base + 1..=top).find(|h| !scanned.contains(&self.r.w.rel(*h))) else { break };
+            if !self.scan(from, 300) {
+                break;
+            }
+        }
+    }
+}
+
+fn prop_sum(p: &ShProp) -> u64 {
+    p.steps().first().transparent_inputs().iter().map(|u| u64::from(u.value())).sum()
+}
+
+const ZC: (u32, u32, bool) = (1, 1, true);
+
+fn shield_scenarios(out: &mut NdjsonWriter) {
+    let mut id = 6000u64;
+
+    // P: confirmations.  Coins mined 0..3 blocks below the target; every policy; the threshold exactly at / one above the sum
+    {
+        id += 1;
+        let mut t = T::new(out, id, false, json!("sP confirmations and threshold"));
+        t.prelude(8); // tip 8, target 9
+        for (dh, v) in [(8u32, 61_000u64), (7, 52_000), (6, 43_000), (5, 34_000), (9, 25_000)] {
+            let c = t.cw.new_utxo(&mut t.r.rng, 1, v);
+            t.utxo(c, Some(t.r.abs(dh)));
+        }
+        let cu = t.cw.new_utxo(&mut t.r.rng, 1, 16_000);
+        t.utxo(cu, None); // unmined, expiry unknown: never eligible
+        for pol in [ZC, (1, 1, false), (1, 2, false), (1, 3, false), (2, 4, false), (3, 10, false), (1, 3, true)] {
+            t.pshield(&[1], 1, pol, 0, None, 0, false);
+        }
+        // thresholds around the sum of what zero-conf shielding selects
+        let s = t.last_sum;
+        for th in [s - 1, s, s + 1, s - 20_000] {
+            t.pshield(&[1], 1, ZC, th, None, 0, false);
+        }
+        t.walk(2); // two more confirmations
+        for pol in [(1, 3, false), (2, 4, false), (1, 2, false)] {
+            t.pshield(&[1], 1, pol, 0, None, 0, false);
+        }
+    }
+
+    // Q: addresses and accounts.  Coins at the three addresses; every non-empty subset of them; to either account;
+    // dust just below / at / above the marginal fee is never selected / selected
+    {
+        id += 1;
+        let mut t = T::new(out, id, false, json!("sQ addresses, accounts, dust"));
+        t.prelude(5);
+        for (ad, v) in [(1u32, 70_000u64), (2, 60_000), (3, 50_000), (1, 5_000), (3, 5_001), (2, 4_999), (1, 12_000)] {
+            let c = t.cw.new_utxo_at(&mut t.r.rng, ad, v);
+            t.utxo(c, Some(t.r.abs(4)));
+        }
+        for ads in [vec![1u32], vec![2], vec![3], vec![1, 3], vec![1, 2], vec![2, 3], vec![1, 2, 3]] {
+            t.pshield(&ads, 1, ZC, 0, None, 0, true);
+        }
+        t.pshield(&[2], 2, ZC, 0, None, 0, false);
+        // the key of account 1 signs: a proposal that draws on account 2's address cannot be created, the others can
+        // kept: [1,3] [1,2] [2,3] [1,2,3]
+        t.cshield(3, None); // [1,2,3]: refused
+        t.cshield(1, None); // [1,2]: refused
+        t.cshield(0, None); // [1,3]: created
+        t.pshield(&[1, 2, 3], 1, ZC, 0, None, 0, false); // account 2's coins are what is left
+    }
+
+    // T: transfers funded from coins only: the account filter and the address list
+    {
+        id += 1;
+        let mut t = T::new(out, id, false, json!("sT transparent-funded transfers: account and address filters"));
+        t.prelude(5);
+        for (ad, v) in [(1u32, 40_000u64), (2, 90_000), (3, 70_000), (1, 30_000), (2, 20_000), (3, 5_000)] {
+            let c = t.cw.new_utxo_at(&mut t.r.rng, ad, v);
+            t.utxo(c, Some(t.r.abs(4)));
+        }
+        for amount in [10_000u64, 60_000, 95_000, 125_000, 200_000] {
+            t.ptrans(1, None, ZC, amount, None, 0); // account 1: addresses 1 and 3, never account 2's larger coins
+            t.ptrans(2, None, ZC, amount, None, 0);
+            t.ptrans(1, Some(&[1]), ZC, amount, None, 0);
+            t.ptrans(1, Some(&[3]), (1, 1, false), amount, None, 0);
+        }
+        t.ptrans(1, Some(&[2]), ZC, 10_000, None, 0); // account 2's address listed for account 1: nothing
+        t.ptrans(2, Some(&[1, 2, 3]), ZC, 100_000, None, 0); // ... and the other way round: only address 2 counts
+        t.ptrans(1, None, (1, 3, false), 10_000, None, 0); // not enough confirmations yet
+        t.ptrans(1, None, ZC, 50_000, Some((0, 3)), 0); // locks what it selects
+        t.ptrans(1, None, ZC, 50_000, Some((1, 3)), 0); // the next owner gets other coins
+        t.ptrans(1, None, ZC, 50_000, None, 0);
+        t.ptrans(1, None, ZC, 50_000, None, 1);
+    }
+
+    // R: the whole flow.  Propose, create, the coins leave the ledger and stay ineligible; the transaction expires -> they
+    // are back; propose and create again, the block mining it is scanned / reported as a full transaction / by status
+    for variant in 0..3u32 {
+        id += 1;
+        let mut t = T::new(out, id, false, json!(format!("sR flow v{variant}")));
+        t.prelude(6);
+        let c1 = t.cw.new_utxo_at(&mut t.r.rng, 1, 90_000);
+        let c2 = t.cw.new_utxo_at(&mut t.r.rng, 3, 40_000);
+        t.utxo(c1, Some(t.r.abs(5)));
+        t.utxo(c2, Some(t.r.abs(6)));
+        t.pshield(&[1, 3], 1, ZC, 0, None, 0, true);
+        t.pshield(&[1, 3], 1, ZC, 0, None, 0, true); // a second, identical proposal: stale once the first is created
+        let tip = t.wtip();
+        t.cshield(0, Some(tip + 3)); // expires 2 blocks after its target
+        t.pshield(&[1, 3], 1, ZC, 0, None, 0, false); // nothing left to shield
+        t.cshield(0, None); // the stale twin: whatever the wallet answers, the ledger law holds
+        t.walk(4); // past the first one's expiry
+        t.pshield(&[1, 3], 1, ZC, 0, None, 0, false);
+        t.walk(40); // past the default expiry of the twin (if it was created)
+        t.pshield(&[1, 3], 1, (1, 1, false), 0, None, 0, true);
+        if !t.kept.is_empty() {
+            let ct = t.cshield(0, if variant == 2 { Some(0) } else { None });
+            if let Some(ct) = ct {
+                t.r.empties(1);
+                t.chk();
+                if let Some(mined) = t.mine_created() {
+                    assert_eq!(mined, ct);
+                    let h = t.on_chain(ct).unwrap();
+                    match variant {
+                        0 => { t.tip_top(); t.scan(h, 1); }
+                        1 => { t.tip_top(); t.fulltx(ct, Some(h)); t.scan(h, 1); }
+                        _ => { t.tip_top(); t.status(ct, h); }
+                    }
+                }
+                t.pshield(&[1, 3], 1, ZC, 0, None, 0, false);
+                t.catch_up();
+                // a rewind below the block that mined it: pending again
+                let top = t.r.chain.top();
+                t.trunc(top - 2, true);
+                t.pshield(&[1, 3], 1, ZC, 0, None, 0, false);
+                t.walk(3);
+                t.fulltx(ct, None);
+            }
+        }
+        t.r.catch_up_and_fresh();
+        t.chk();
+    }
+
+    // S: locks.  A proposal locks its coins; a second owner is refused them, the selector admitting owner 0 draws through;
+    // locks expire with the target height; direct locks; unlock under the wrong / the right owner; clear per account
+    {
+        id += 1;
+        let mut t = T::new(out, id, false, json!("sS locks"));
+        t.prelude(6);
+        let mut cs = vec![];
+        for (ad, v) in [(1u32, 80_000u64), (1, 30_000), (3, 45_000), (2, 55_000)] {
+            let c = t.cw.new_utxo_at(&mut t.r.rng, ad, v);
+            t.utxo(c, Some(t.r.abs(5)));
+            cs.push(c);
+        }
+        t.pshield(&[1], 1, ZC, 0, Some((0, 2)), 0, true); // owner 0 locks the coins of address 1 until target + 2
+        t.pshield(&[1, 3], 1, ZC, 0, Some((1, 1)), 0, true); // owner 1 gets only address 3's coin
+        t.pshield(&[1, 3], 1, ZC, 0, None, 0, false); // nothing unlocked left
+        t.pshield(&[1, 3], 1, ZC, 0, None, 1, false); // admits owner 0: draws through its locks only
+        t.pshield(&[1, 3], 1, ZC, 0, Some((1, 5)), 2, false); // ... and cannot lock them for owner 1
+        t.pshield(&[1, 3], 1, ZC, 0, Some((0, 5)), 2, false); // owner 0 itself can
+        t.walk(1);
+        t.pshield(&[1, 3], 1, ZC, 0, None, 0, false);
+        t.walk(2); // owner 1's lock (target + 1) has expired
+        t.pshield(&[1, 3], 1, ZC, 0, None, 0, false);
+        t.cunlock(0, 1); // owner 1 cannot release owner 0's locks
+        let tip = t.wtip();
+        t.clock(&[cs[3]], 1, tip + 4);
+        t.clock(&[cs[3], cs[2]], 0, tip + 4); // all or nothing
+        t.cclear(1);
+        t.pshield(&[1, 2, 3], 1, ZC, 0, None, 0, false);
+        t.cclear(2);
+        t.pshield(&[1, 2, 3], 1, ZC, 0, Some((0, 30)), 0, true);
+        // creating releases (or keeps) the locks; the coins stay out either way
+        t.kept.retain(|k| k.to == 1);
+        t.pshield(&[1, 3], 1, ZC, 0, None, 1, true);
+        let n = t.kept.len();
+        t.cshield(n - 1, None);
+        t.pshield(&[1, 3], 1, ZC, 0, None, 1, false);
+    }
+
+    // U: unmined coins under zero-conf shielding: change of an unmined stored transaction is eligible while that transaction
+    // has not expired, and only under a policy that needs no confirmations; a coin spent by a pending fabricated transaction
+    // is not
+    {
+        id += 1;
+        let mut t = T::new(out, id, false, json!("sU unmined coins"));
+        t.prelude(6);
+        let c1 = t.cw.new_utxo_at(&mut t.r.rng, 1, 100_000);
+        t.utxo(c1, Some(t.r.abs(4)));
+        let e9 = t.r.abs(9);
+        let s1 = t.cw.new_tx(&mut t.r.rng, &[c1], 0, &[(3, 60_000), (0, 39_000)], e9);
+        t.fulltx(s1, None);
+        for pol in [ZC, (1, 1, false)] {
+            t.pshield(&[1, 3], 1, pol, 0, None, 0, false);
+        }
+        t.walk(2); // tip 8: target 9 = expiry: still unexpired
+        t.pshield(&[1, 3], 1, ZC, 0, None, 0, false);
+        t.walk(1); // expired: the change is gone, the coin is back
+        for pol in [ZC, (1, 1, false)] {
+            t.pshield(&[1, 3], 1, pol, 0, None, 0, false);
+        }
+    }
+}
+
+fn shield_op(t: &mut T) {
+    match t.r.rng.gen_range(0..100) {
+        0..=54 => {
+            if t.r.rng.gen_bool(0.6) {
+                t.catch_up();
+            }
+            let ads: Vec<u32> = match t.r.rng.gen_range(0..10) { 0..=2 => vec![1], 3 => vec![3], 4..=6 => vec![1, 3], 7 => vec![2], 8 => vec![1, 2, 3], _ => vec![2, 3] };
+            let to = if ads == vec![2] || t.r.rng.gen_bool(0.1) { 2 } else { 1 };
+            let pol = *[ZC, ZC, (1, 1, false), (1, 2, false), (1, 3, false), (3, 10, false), (3, 10, true), (2, 5, false)].choose(&mut t.r.rng).unwrap();
+            let s = t.last_sum;
+            let threshold = match t.r.rng.gen_range(0..10) { 0..=3 => 0, 4 => s, 5 => s + 1, 6 => s.saturating_sub(1), 7 => s / 2, 8 => 30_000, _ => 400_000 };
+            let lock = if t.r.rng.gen_bool(0.4) { Some((t.r.rng.gen_range(0..2usize), *[0u32, 1, 3, 20].choose(&mut t.r.rng).unwrap())) } else { None };
+            let lpol = match t.r.rng.gen_range(0..10) { 0..=5 => 0, 6..=7 => 1, _ => 2 };
+            let keep = t.r.rng.gen_bool(0.65);
+            if t.r.rng.gen_bool(0.25) {
+                // a transfer funded from coins instead: account, optional address list, amount
+                let acct = if t.r.rng.gen_bool(0.3) { 2 } else { 1 };
+                let amount = *[8_000u64, 25_000, 60_000, 150_000, 400_000].choose(&mut t.r.rng).unwrap();
+                let listed = t.r.rng.gen_bool(0.5);
+                t.ptrans(acct, if listed { Some(&ads) } else { None }, pol, amount, lock, lpol);
+            } else {
+                t.pshield(&ads, to, pol, threshold, lock, lpol, keep);
+            }
+        }
+        55..=66 => {
+            if t.kept.is_empty() {
+                return;
+            }
+            // mostly proposals that can be created (account 1's own coins)
+            let i = t.kept.iter().position(|k| k.to == 1).filter(|_| t.r.rng.gen_bool(0.8)).unwrap_or(t.r.rng.gen_range(0..t.kept.len()));
+            let target = u32::from(BlockHeight::from(t.kept[i].p.min_target_height()));
+            let expiry = match t.r.rng.gen_range(0..10) { 0..=3 => None, 4..=5 => Some(target), 6..=7 => Some(target + 2), 8 => Some(target + 12), _ => Some(0) };
+            t.cshield(i, expiry);
+        }
+        67..=78 => {
+            // the environment mines a shielding transaction; the wallet learns of it one way or another (or, for now, not)
+            if let Some(ct) = t.mine_created() {
+                let h = t.on_chain(ct).unwrap();
+                match t.r.rng.gen_range(0..5) {
+                    0 => { t.tip_top(); t.fulltx(ct, Some(h)); }
+                    1 => { t.tip_top(); t.status(ct, h); }
+                    2 | 3 => { t.tip_top(); t.scan(h, 1); }
+                    _ => {}
+                }
+            }
+        }
+        79..=84 => {
+            // a pending (or mined) shielding transaction is delivered again in full
+            let shared: Vec<u32> = t.cw.txs.keys().copied().filter(|u| *u >= SHARED_BASE).collect();
+            if let Some(ct) = shared.choose(&mut t.r.rng).copied() {
+                let h = t.on_chain(ct).filter(|h| t.r.w.tip().map(|tp| *h <= tp + 3).unwrap_or(false));
+                let h = if t.r.rng.gen_bool(0.5) { h } else { None };
+                // (a height the wallet has on record is the chain's: no re-mining elsewhere)
+                let h = match t.cw.wallet_mined(&t.r.w, ct) { Some(Some(m)) => h.filter(|x| *x == m), _ => h };
+                t.fulltx(ct, h);
+            }
+        }
+        85..=90 => {
+            let known: Vec<u32> = t.cw.coins.keys().copied().filter(|c| t.cw.wallet_knows_coin(&t.r.w, *c)).collect();
+            if known.is_empty() {
+                return;
+            }
+            let k = t.r.rng.gen_range(1..=known.len().min(3));
+            let picks: Vec<u32> = known.choose_multiple(&mut t.r.rng, k).copied().collect();
+            let o = t.r.rng.gen_range(0..2usize);
+            let exp = t.wtip() + *[0u32, 1, 2, 5, 30].choose(&mut t.r.rng).unwrap();
+            t.clock(&picks, o, exp);
+        }
+        91..=95 => {
+            if t.kept.is_empty() {
+                return;
+            }
+            let i = t.r.rng.gen_range(0..t.kept.len());
+            let o = t.kept[i].locker.unwrap_or(0);
+            let by = if t.r.rng.gen_bool(0.7) { o } else { 1 - o };
+            t.cunlock(i, by);
+        }
+        _ => {
+            let a = t.r.rng.gen_range(1..=2u32);
+            t.cclear(a);
+        }
+    }
+}
+
+fn shield_history(t: &mut T, ops: usize) {
+    let mut wk = Walk { undelivered: vec![], unstored: vec![], last_from: t.r.chain.base + 1 };
+    t.prelude(3);
+    for op_i in 0..ops {
+        if t.r.aborted {
+            return;
+        }
+        if op_i > 0 && op_i % 60 == 0 {
+            t.r.catch_up_and_fresh();
+            t.chk();
+            continue;
+        }
+        match t.r.rng.gen_range(0..100) {
+            // funds: one to three economic coins at or a little below the tip (so that proposals have something to judge)
+            0..=13 => {
+                if t.r.w.tip().is_none() {
+                    t.tip_top();
+                }
+                for _ in 0..t.r.rng.gen_range(1..=3) {
+                    let ad = *[1u32, 1, 1, 3, 3, 2].choose(&mut t.r.rng).unwrap();
+                    let v = match t.r.rng.gen_range(0..8) { 0 => 5_000, 1 => 5_001, 2 => 9_000, _ => 20_000 + 1_000 * t.r.rng.gen_range(0..200) };
+                    let c = t.cw.new_utxo_at(&mut t.r.rng, ad, v);
+                    let tip = t.wtip();
+                    let h = tip.saturating_sub(*[0u32, 0, 1, 2, 3, 9, 10].choose(&mut t.r.rng).unwrap()).max(t.r.chain.base + 1);
+                    t.utxo(c, Some(h));
+                }
+            }
+            14..=33 => coin_op(t, &mut wk),
+            34..=49 => shielded_op(t, &mut wk, false, true),
+            _ => shield_op(t),
+        }
+    }
+    if !t.r.aborted {
+        t.r.catch_up_and_fresh();
+        t.chk();
+    }
+}
+
 fn main() {
     quiet_panics();
     let args: Vec<String> = std::env::args().collect();
@@ -577,6 +1227,17 @@ fn main() {
         scenarios(&mut out);
     } else if args[2] == "conflict-scenario" {
         conflict_scenario(&mut out);
+    } else if args[2] == "shield-scenarios" {
+        shield_scenarios(&mut out);
+    } else if args[2] == "shield" {
+        let histories: usize = args[3].parse().unwrap();
+        let ops: usize = args[4].parse().unwrap();
+        let ironwood = args.get(5).map(|s| s == "ironwood").unwrap_or(false);
+        let seed = seed_from_env();
+        for hist in 0..histories {
+            let mut t = T::new(&mut out, seed.wrapping_mul(1_000_003).wrapping_add(9_000 + hist as u64), ironwood, json!(format!("s{hist}")));
+            shield_history(&mut t, ops);
+        }
     } else {
         let histories: usize = args[2].parse().unwrap();
         let ops: usize = args[3].parse().unwrap();
